@@ -149,6 +149,45 @@ def _listing_worker(job):
     return out
 
 
+def _usage_worker(job):
+    """One setting: shared-array, non-default-eps and read-only-query patterns on the real classes."""
+    si, strata, seed, count, pid = job
+    from diffpy.structure.spacegroups import SpaceGroupList
+    ops = _G["allops"][si]
+    sg = SpaceGroupList[si]
+    rng = random.Random(seed * 15485863 + si)
+    out = []
+    for c in range(count):
+        case = ce.make_usage_case(ops, strata, rng)
+        if case is None:
+            continue
+        case["long"] = ce.make_long_case(ops, strata, rng)
+        rec = {"si": si, "usage": case, "hits": [], "exc": None}
+        try:
+            rec["hits"] = [(k, m, d) for k, m, d in ce.finder_usage(sg, ops, case, pid)]
+            if case["long"] is not None:
+                rec["hits"] += [(k, m, d) for k, m, d in ce.finder_long_listing(sg, ops, case["long"], pid)]
+        except ce.CertError as e:
+            rec["hits"] = [("formulas", str(e), {"usage": case})]
+        except Exception as e:
+            import traceback
+            rec["exc"] = "%s: %s | %s" % (type(e).__name__, e, traceback.format_exc()[-300:])
+        out.append(rec)
+    return out
+
+
+def usages(ctx, allops, strata, count, pid, nproc=16):
+    _G["allops"] = allops
+    jobs = [(si, strata[si], ctx.seed, count, pid) for si in range(len(allops))]
+    jobs.sort(key=lambda j: -len(allops[j[0]]))
+    t1 = time.time()
+    with multiprocessing.get_context("fork").Pool(nproc) as pool:
+        res = pool.map(_usage_worker, jobs, chunksize=1)
+    recs = [r for rs in res for r in rs]
+    ctx.log("usage patterns (shared arrays, eps=1e-3 / 1e-7, query histories, custom symbols on long listings) on %d cases in %.1fs" % (len(recs), time.time() - t1))
+    return recs
+
+
 def listings(ctx, allops, strata, count, with_u, maxpos=100, nproc=16):
     _G["allops"] = allops
     jobs = [(si, strata[si], ctx.seed, count, with_u, maxpos) for si in range(len(allops))]
@@ -323,6 +362,26 @@ def run_property(ctx, pid):
     ctx.obligation("correspondence:%s" % ("coremap-vs-exact-orbit-partition" if pid == "C05" else "whole-structure-tensors"),
                    not lbad, "; ".join("%s x%d" % kv for kv in lbad.items()))
 
+    # ---- usage patterns
+    urecs = usages(ctx, allops, strata, count=(4 if thorough else 1), pid=pid)
+    ubad = collections.Counter()
+    for r in urecs:
+        ctx.count(("usage", r["si"], tuple(map(tuple, r["usage"]["sites"]))))
+        hits = list(r["hits"])
+        if r["exc"]:
+            hits.append(("exception", "raised %s" % r["exc"], {"usage": r["usage"]}))
+        for k, msg, data in hits:
+            ubad[k] += 1
+            key = "%s:usage-%s:%s" % (pid, k, settings[r["si"]]["short_name"])
+            if key in reported or ubad[k] > 3:
+                continue
+            reported.add(key)
+            ctx.violation("%s: %s" % (settings[r["si"]]["short_name"], msg),
+                          {"setting_index": r["si"], "short_name": settings[r["si"]]["short_name"], "finder": "usage",
+                           "usage": r["usage"], "kind": k}, key=key)
+    ctx.obligation("correspondence:usage-patterns (shared arrays = fresh copies; eps 1e-3 / 1e-7; query histories = fresh object; custom symbols on long listings)",
+                   not ubad, "; ".join("%s x%d" % kv for kv in ubad.items()))
+
     good = [r for r in recs if r[kind] and not r.get("failed")]
     for r in good[:: max(1, len(good) // 5)][:5]:
         ctx.sample({"setting": settings[r["si"]]["short_name"], "xyz": [float(F(v)) for v in r["x"]], "stabiliser_size": len(r["stab"]),
@@ -335,6 +394,7 @@ def run_property(ctx, pid):
         "certificates_checked": len(lines), "certificates_rejected": len(bad_sites), "certificates_not_formable": len(errs),
         "rejected_by_clause": {clauses.get(k, str(k)): v for k, v in fails.items()},
         "finder_hits": dict(nviol), "listing_hits": dict(lbad), "listings": len(lrecs),
+        "usage_cases": len(urecs), "usage_hits": dict(ubad),
         "listing_positions": sum(r["npos"] for r in lrecs),
         "distribution_free_dimensions": dict(collections.Counter(r["dim"] for r in recs)),
         "distribution_stabiliser_size": dict(collections.Counter(len(r["stab"]) for r in recs)),
@@ -406,7 +466,12 @@ def replay_property(ctx, pid, case):
     from diffpy.structure.spacegroups import SpaceGroupList
     ops, sg = allops[si], SpaceGroupList[si]
     rng = random.Random(ctx.seed)
-    if c.get("finder") == "listing":
+    if c.get("finder") == "usage":
+        hits = list(ce.finder_usage(sg, ops, c["usage"], pid))
+        if c["usage"].get("long"):
+            hits += list(ce.finder_long_listing(sg, ops, c["usage"]["long"], pid))
+        stab = []
+    elif c.get("finder") == "listing":
         picks = []
         for xs in c["sites"]:
             x = [F(v) for v in xs]
@@ -433,7 +498,8 @@ def replay_property(ctx, pid, case):
             hits = list(ce.finder_u(sg, ops, stab, obs, parsed, rng))
     ctx.count(("replay", si))
     for k, msg, data in hits:
-        key = "%s:listing-%s:%s" % (pid, k, c.get("short_name")) if c.get("finder") == "listing" else \
+        key = "%s:usage-%s:%s" % (pid, k, c.get("short_name")) if c.get("finder") == "usage" else \
+            "%s:listing-%s:%s" % (pid, k, c.get("short_name")) if c.get("finder") == "listing" else \
             "%s:%s:%s:stab%d" % (pid, k, c.get("short_name"), len(stab))
         ctx.violation("replay %s: %s" % (c.get("short_name"), msg), dict(c, detail=data), key=key)
     ctx.obligation("replay:finder-ran", True, "%d hit(s)" % len(hits))
